@@ -304,6 +304,20 @@ Theorem C03_nested_run : forall Hb matches C cdig ser h0 kids hs req no_dh ip if
 Proof. exact nested_run. Qed.
 Print Assumptions C03_nested_run.
 
+(* detection on nested trees, end to end: the histories describe tree t (every recorded digest current); in a later tree
+   t2 with the same histories a recorded file has other bytes: verify names it and exits 11 -- unless the two contents
+   collide in the reference's format *)
+Theorem C03_nested_altered_file_detected : forall Hb matches C cdig h0 kids hs t2 ipats ifile p c c' e r,
+  wf_tree C (Dir h0 kids) -> load C cdig (Dir h0 kids) = inl hs -> nprev hs -> ncur Hb C hs (Dir h0 kids) ->
+  get C (Dir h0 kids) p = Some (File c) -> reference hs p = Some e ->
+  load C cdig t2 = inl hs ->
+  In (p, c') (ev_files (events matches C (set_patterns (latest_patterns (lh_gens (root_hist hs))) ipats (pattern_file_lines ifile)) [] t2)) ->
+  digest_text Hb (e_fmt e) c' <> digest_text Hb (e_fmt e) c ->
+  verify_result Hb matches C cdig false t2 ipats ifile = Some r ->
+  vr_code r = 11%Z /\ In p (vr_mismatch r).
+Proof. exact nested_altered_detected. Qed.
+Print Assumptions C03_nested_altered_file_detected.
+
 (* non-vacuity: a folder `a` sealed on its own (one generation, one file), placed beside a second file in a tree whose
    root has no history yet: the state holds; the run at the root writes into BOTH histories, exits 0, and the result
    verifies *)
